@@ -189,6 +189,8 @@ func (k *hkind) tags() []string {
 			t = append(t, "msg=64KiB")
 		case len(k.msg) >= 4096:
 			t = append(t, "msg=4KiB")
+		case strings.ContainsAny(k.msg, "%\\\x00"):
+			t = append(t, "msg=format-looking")
 		case strings.ContainsAny(k.msg, "é✓世"):
 			t = append(t, "msg=unicode")
 		default:
@@ -255,8 +257,22 @@ func stGrid() []*hkind {
 		ks = append(ks, &hkind{kind: kind, code: 8, msg: stHugeMessage, det: stHugeDetail()}, &hkind{kind: kind, code: 13, msg: stHugeMessage})
 	}
 	ks = append(ks, &hkind{kind: "okstatus", msg: stHugeMessage, det: stHugeDetail()}, &hkind{kind: "plain", msg: stHugeMessage})
+	// messages that look like format strings or need escaping: they must arrive byte for byte
+	for _, m := range stFormatMessages {
+		for _, kind := range []string{"status", "wrapped"} {
+			for _, c := range []int64{5, 13} {
+				for d := 0; d <= 1; d++ {
+					ks = append(ks, &hkind{kind: kind, code: c, msg: m, det: stDetails(d)})
+				}
+			}
+		}
+		ks = append(ks, &hkind{kind: "okstatus", msg: m}, &hkind{kind: "plain", msg: m})
+	}
 	return ks
 }
+
+var stFormatMessages = []string{"disk 100% full", "%", "%s", "%d %%", "100%", "%v %+v %#v %T", "%!s(MISSING)", "%[2]d %[1]s", "50%% done %",
+	"back\\slash \\n \\x00 \\u00e9", "nul\x00inside", "tab\tnewline\ncr\r", "\"quoted\" 'single' `back`", "{{.}} ${x} $(y)"}
 
 // a smaller set for the end-to-end rig: one of each kind with the interesting parameters
 func stKindsSmall() []*hkind {
@@ -272,6 +288,9 @@ func stKindsSmall() []*hkind {
 		{kind: "eof"},
 		{kind: "eof", wrap: true},
 		{kind: "status", code: 8, msg: stHugeMessage, det: stHugeDetail()},
+		{kind: "status", code: 8, msg: "disk 100% full"},
+		{kind: "wrapped", code: 3, msg: "%s %d %% nul\x00 back\\slash", det: stDetails(1)},
+		{kind: "plain", msg: "%v: 100%"},
 	}
 }
 
